@@ -11,8 +11,7 @@ def run(tier):
     drv = vp.build("op_driver", ["op_driver.cpp"], [], "-O1", timeout=1200)
     tpath = os.path.join(wd, "op.ndjson")
     p = vp.run([drv, tpath, str(vp.seed()), "1" if thorough else "0"], timeout=1100)
-    if p.returncode != 0:
-        raise vp.Broken("op_driver rc=%d %s" % (p.returncode, p.stderr[-300:]))
+    vp.exit_ok(p, "op_driver")
     events = vp.read_ndjson(tpath)
     r = vp.tlc(os.path.join(vp.SPEC, "Trace_Ops.tla"), os.path.join(vp.SPEC, "Trace_Ops.cfg"), workers=1, timeout=1100,
                env={"TRACE": tpath}, xmx="12g")
